@@ -49,7 +49,7 @@ def key_labels(obs):
 
 def run(ctx):
     facts = ctx.facts()
-    thms = ctx.build_and_audit(["NutsProofs.Props.C13", "NutsProofs.Props.C13Req"])
+    thms = ctx.build_and_audit(["NutsProofs.Props.C13", "NutsProofs.Props.C13Req", "NutsProofs.Props.C13Ctx"])
     required = ["fact_sweep_threshold", "fact_transaction_helper_shape", "fact_rollback_deletes_created_did",
                 "fact_nuts_not_found_is_uncommitted", "fact_web_commit_cannot_fail", "fact_version_is_latest_plus_one",
                 "fact_sweep_handles_whole_transaction", "fact_deactivation_renders_as_published", "fact_rollback_loop_wiring", "fact_method_manager_wiring",
@@ -153,10 +153,27 @@ def run(ctx):
                     if len(ms) != len(set(ms)):
                         report("C13:two-dids-of-one-method", f"subject {sname} event {k}", w)
                     # O2 consecutive versions (schedules where the sweep runs before the next operation on the subject)
-                    if kind in ("plain", "quiet", "now", "mid", "req", "tx2"):
+                    if kind in ("plain", "quiet", "now", "mid", "req", "tx2", "ctx", "names"):
                         for d in s["dids"]:
                             if d[2] != list(range(len(d[2]))):
                                 report("C13:versions-not-consecutive", f"subject {sname} event {k}: {d[2]}", w)
+        # O8 (clause G, "a subject name maps to at most one set of DIDs" read from the other side): no DID is listed under two
+        # subject names; O9 (clause A/B): an operation on one subject changes no DID of any other subject
+        for k, (op, o) in enumerate(zip(w["ops"], obs)):
+            owner = {}
+            for sname, s in o[3].items():
+                for d in s["dids"]:
+                    if d[1] in owner and owner[d[1]] != sname:
+                        report("C13:did-listed-under-two-subjects", f"event {k}: {d[0]}:d{d[1]} is listed under subject {owner[d[1]]!r} and under {sname!r}", w)
+                    owner[d[1]] = sname
+            if op["op"] == "do" and k > 0 and op.get("fault") != "sweepat" and not o[0].startswith("panic:") and o[0] != "hang":
+                for sname, s in o[3].items():
+                    if sname == op.get("subj") or sname not in obs[k - 1][3] or "s:" + sname in op.get("opts", []):
+                        continue    # (a Create that was stopped does not tell which of the given names it took)
+                    b4 = obs[k - 1][3][sname]
+                    nz = lambda m: {a: b for a, b in m.items() if b}   # a label nobody has used before is listed without owners
+                    if (b4["dids"], b4["err"], nz(b4["svc"])) != (s["dids"], s["err"], nz(s["svc"])):
+                        report("C13:operation-changed-another-subject", f"event {k} ({op['kind']} on {op.get('subj')!r} -> {o[0]}): subject {sname!r} before {b4['dids']} after {s['dids']}", w)
         # P2/P3: no panic; List / Exists agree with ListDIDs
         for k, (op, o) in enumerate(zip(w["ops"], obs)):
             if o[0] == "hang":
@@ -360,6 +377,25 @@ def run(ctx):
                         report("C13:sweep-during-in-flight-operation-changed-the-outcome", f"event {k} ({w['ops'][k].get('kind', w['ops'][k]['op'])}): "
                                f"{impl[w['start'] + k][:260]}  BUT without the sweep: {impl[pw['start'] + k][:260]}", w)
                         break
+        if kind == "ctx":
+            # the request context ended right after did:nuts published: the operation completes (nothing after the first
+            # transaction depends on the request being alive) and every observation equals the fault-free run's
+            j = int(tag[1])
+            sid = ":".join(tag[2:])
+            pw = plain.get(sid)
+            bad_op = w["ops"][j + 1]
+            if bad_op.get("fault") == "okctx":
+                stats["cut:request-cancelled-after-nuts-published:" + "-".join(bad_op.get("order", []))] += 1
+                if pw is not None and all(o is not None for o in pw["obs"]):
+                    for k in range(1, min(len(obs), len(pw["obs"]))):
+                        if obs[k] != pw["obs"][k]:
+                            report("C13:request-cancelled-after-publish-changed-the-outcome", f"event {k} ({w['ops'][k].get('kind', w['ops'][k]['op'])}, commit order "
+                                   f"{bad_op.get('order')}, context dead after {bad_op.get('k')} Commit call(s)): {impl[w['start'] + k][:260]}  BUT with a live context: {impl[pw['start'] + k][:260]}", w)
+                            break
+        if kind == "names":
+            stats["names:" + ",".join(sorted({op["subj"] for op in w["ops"] if op["op"] == "do"}))] += 1
+            if obs[-1][1] != 0:
+                report("C13:changelog-remains-after-sweep", f"{obs[-1][1]} change records at the end of a look-alike-names run", w)
         if kind == "now":
             # the publish failed (request context cancelled or not) and the caller retried at once: everything from the retry on is as
             # in the fault-free run, and at the end no change record is left
@@ -583,7 +619,11 @@ REQUIRED_DEEP = ["uniform_versions", "versions_consecutive", "versions_consecuti
                  "key_agreement_on_web_changes_no_did", "create_with_encryption_key_on_web_creates_nothing",
                  "create_request_order_independent", "ill_formed_option_refuses", "option_names_are_not_dids",
                  "list_dids_sorted_permutation", "list_dids_order_unique", "cleanup_failure_reach",
-                 "sorted_documents_are_a_permutation", "cleanup_failure_resolved"]
+                 "sorted_documents_are_a_permutation", "cleanup_failure_resolved",
+                 # round 3 (Props/C13Ctx.lean): request context, subject look-up
+                 "fact_request_context_only_reaches_commit", "fact_subject_lookup_is_equality", "commit_loop_ignores_context",
+                 "cancelled_request_changes_nothing", "cancelled_request_reach", "web_commit_failing_on_dead_context_breaks_all_or_nothing",
+                 "find_services_all_dids_or_none", "find_services_without_type_finds_nothing", "lookup_is_exact", "lookup_by_like_merges_subjects", "other_subjects_untouched", "other_subjects_untouched_by_cancelled_request"]
 
 
 def pref_of(s):
